@@ -704,10 +704,10 @@ func c20rgs(n int) [][]int {
 	return out
 }
 
-func c20batches(maxLen int, slotsForTx []int) []c20case {
+func c20batches(maxLen int, slotsForTx []int, txOnly bool) []c20case {
 	var out []c20case
 	// F1: keyed reads/writes over up to 3 slots (with duplicates), DoMulti
-	for n := 1; n <= maxLen; n++ {
+	for n := 1; n <= maxLen && !txOnly; n++ {
 		for _, sl := range c20rgs(n) {
 			for mask := 0; mask < 1<<n; mask++ {
 				items := make([]string, n)
@@ -773,7 +773,7 @@ func c20batches(maxLen int, slotsForTx []int) []c20case {
 		}
 	}
 	// F3: cacheable reads, DoMultiCache
-	for n := 1; n <= maxLen; n++ {
+	for n := 1; n <= maxLen && !txOnly; n++ {
 		for _, sl := range c20rgs(n) {
 			for _, st := range []string{"", "all", "alt"} {
 				items := make([]string, n)
@@ -853,13 +853,16 @@ func TestVerif_C20(t *testing.T) {
 			return
 		}
 		maxLen := vrun.Pick(r, 4, 5)
-		txSlots := vrun.Pick(r, []int{0}, []int{0, 1})
 		r.Bounds["max_batch_len"] = maxLen
 		r.Bounds["max_faults_per_batch"] = 2
 		r.Bounds["attempts_scripted"] = 2
-		r.Bounds["tx_slots"] = txSlots
 		r.Bounds["nodes"] = 3
-		batches := c20batches(maxLen, txSlots)
+		// F2 uses the slot of node 0 (which also serves batches of slot-less commands only); the thorough tier
+		// repeats F2 up to length 4 with the slot of node 1
+		batches := c20batches(maxLen, []int{0}, false)
+		if !r.Quick() {
+			batches = append(batches, c20batches(4, []int{1}, true)...)
+		}
 		r.Bounds["batches"] = len(batches)
 		env := c20newEnv()
 		defer env.cl.Close()
